@@ -34,7 +34,10 @@ template <typename T> static void wobj(std::vector<unsigned char> const &b)
 }
 template <typename T> static std::string rvec(Ctx &c)
 {
-  std::vector<T> v;
+  // the destination is reused from one read to the next, as the library's own callers do (member vectors read again at every restart):
+  // what it held before must not survive a successful read
+  static std::vector<T> v;
+  if (v.empty()) v.assign(3, T(7));
   *R >> v;
   if (!*R) return "sfail";
   return "i" + std::to_string(v.size()) + " s" + hex((unsigned char const *) v.data(), v.size() * sizeof(T));
@@ -113,7 +116,8 @@ bool ops_c11(Ctx &c, Toks const &t)
       default: v = rvec<double>(c); break;
       }
     } else if (k == "str") {
-      std::string s;
+      static std::string s;
+      if (s.empty()) s = "junk";
       *R >> s;
       v = (!*R) ? std::string("sfail") : ("i" + std::to_string(s.size()) + " s" + hex((unsigned char const *) s.data(), s.size()));
     }
